@@ -166,7 +166,15 @@ func deriveRejected(s *Sess, r SOp) ([]byte, string) {
 			kind = "data-replay"
 		}
 	} else {
-		switch r.X % 6 {
+		switch r.X % 7 {
+		case 6:
+			// an out-of-range D-H value in place of the genuine one
+			if h.Type != ref.TypeDHKey {
+				return nil, ""
+			}
+			vals := []*big.Int{big.NewInt(1), big.NewInt(0), new(big.Int).Sub(ref.P, big.NewInt(1)), ref.P, new(big.Int).Add(ref.P, big.NewInt(1))}
+			out = append(append([]byte{}, raw[:body]...), ref.PutMPI(nil, vals[r.F%len(vals)])...)
+			kind = "ake-dhkey-out-of-range"
 		case 0:
 			out[body+r.L%(len(out)-body)] ^= 1 << uint(r.F%8)
 			kind = "ake-bitflip"
@@ -330,7 +338,7 @@ func TestProp_C06_Twin(t *testing.T) {
 			sc.Ops = append(sc.Ops, genSOp(rt, kinds, 200))
 		}
 		sc.At = rapid.IntRange(0, n).Draw(rt, "at")
-		sc.R = SOp{W: rapid.IntRange(0, 1).Draw(rt, "rw"), I: rapid.IntRange(0, 30).Draw(rt, "ri"), X: rapid.IntRange(0, 9).Draw(rt, "rx"),
+		sc.R = SOp{W: rapid.IntRange(0, 1).Draw(rt, "rw"), I: rapid.IntRange(0, 30).Draw(rt, "ri"), X: rapid.IntRange(0, 69).Draw(rt, "rx"),
 			L: rapid.IntRange(0, 3000).Draw(rt, "rl"), F: rapid.IntRange(0, 255).Draw(rt, "rf")}
 		sim.Judge(rt, "C06twin", sc)
 	})
@@ -355,7 +363,7 @@ func TestProp_C06_AKEStates(t *testing.T) {
 				at := len(ops)
 				ops = append(ops, SOp{K: "flush"}, SOp{K: "pp", W: 0, I: 1, L: 5})
 				for rcv := 0; rcv < 2; rcv++ {
-					for x := 0; x < 6; x++ {
+					for x := 0; x < 7; x++ {
 						for _, src := range []int{0, 2, 5} {
 							for _, l := range []int{0, 3, 40, 200} {
 								if !sim.Thorough() && (l == 3 || src == 5) {
@@ -365,7 +373,7 @@ func TestProp_C06_AKEStates(t *testing.T) {
 								if idx%sn != si {
 									continue
 								}
-								sc := &TwinScript{Cfg: SessCfg{V: v, SeedA: 1700, SeedB: 1801, KeyA: 0, KeyB: 3}, Ops: ops, At: at, R: SOp{W: rcv, I: src, X: x, L: l, F: 3}}
+								sc := &TwinScript{Cfg: SessCfg{V: v, SeedA: 1700, SeedB: 1801, KeyA: 0, KeyB: 3}, Ops: ops, At: at, R: SOp{W: rcv, I: src, X: x, L: l, F: l % 5}}
 								sim.Judge(t, "C06akestates", sc)
 							}
 						}
